@@ -510,14 +510,17 @@ def c13(res):
 
 @check("C18")
 def c18(res):
-    return generic(res, "C18", "Properties/C18.v", [("corr-regexps", ["rxcheck", "-regexps", os.path.join(V.GEN_OUT, "regexps.tsv"), "-only", "css_", "-n", "600"])], None,
+    kwh = ["kwh", "-table", os.path.join(V.GEN_OUT, "css_table.tsv"), "-kwhandlers", os.path.join(V.GEN_OUT, "css_kw_handlers.tsv"), "-keywords", os.path.join(V.GEN_OUT, "css_keywords.tsv")]
+    return generic(res, "C18", "Properties/C18.v", [("corr-regexps", ["rxcheck", "-regexps", os.path.join(V.GEN_OUT, "regexps.tsv"), "-only", "css_", "-n", "600"]), ("corr-kwhandlers", kwh)], None,
                    "the regexps, keyword lists and default handler table of css/handlers.go",
                    "theorems: reflection (verified emptiness procedure) on the regenerated css regexps: whole-value and hostile-free for all string lengths, keyword lists, table lookup shape; "
-                   "tie: every css regexp run by Go's engine and by the extracted matcher; oracle (the property's own bounded-exhaustive quantifier): for all 213 table entries, values from the "
+                   "whole handlers of the keyword shape (89 functions, 99 table entries) proved to accept no hostile value; recursiveCheck composes; "
+                   "tie: every css regexp run by Go's engine and by the extracted matcher; every keyword-shape handler vs its model (own keywords and generic values, joined, padded with "
+                   "ASCII and multi-byte white space, upper-cased, mutated, with hostile fragments); oracle (the property's own bounded-exhaustive quantifier): for all 213 table entries, values from the "
                    "handler's vocabulary with 18 hostile fragments glued / appended / prepended / inserted at every byte position and token boundary; unknown properties reject everything. "
                    "non-trivial = accepted mutated values",
                    extra_oracles=[("oracle-c18", ["c18", "-table", os.path.join(V.GEN_OUT, "css_table.tsv"), "-keywords", os.path.join(V.GEN_OUT, "css_keywords.tsv")])],
-                   thorough_runs=[("corr-regexps", ["rxcheck", "-regexps", os.path.join(V.GEN_OUT, "regexps.tsv"), "-only", "css_", "-n", "6000"])])
+                   thorough_runs=[("corr-regexps", ["rxcheck", "-regexps", os.path.join(V.GEN_OUT, "regexps.tsv"), "-only", "css_", "-n", "6000"]), ("corr-kwhandlers", kwh + ["-n", "2500"])])
 
 
 @check("C04")
